@@ -10,10 +10,11 @@ Executable model of profile/filter.go (`FilterSamplesByName`, `ShowFrom`, `Filte
   locations of a sample through pointers.  For profiles with unique location ids (CheckValid)
   "the map entry of id" and "what was computed for the table entry with that id" coincide, so
   the model looks the per-location result up through `findLocation`.
-* The model mirrors the code WITH the two repairs in /verif/fixes:
-    C06-keep-empty-stack-without-focus.patch   (sample without locations is kept when focus == nil)
-    C06-show-keeps-unsymbolized-mapping-match.patch (a location without lines whose mapping matches
-                                                 `show` is not hidden)
+* The model mirrors the REPAIRED code:
+    fix 10d4795 (= fixes/C06-keep-empty-stack-without-focus.patch): a sample without locations is
+                                                 kept when focus == nil
+    fixes/C06-show-keeps-unsymbolized-mapping-match.patch: a location without lines whose mapping
+                                                 matches `show` is not hidden
   `ShowFrom` is modelled as the code is (finding C06/show_from/inlined-location-below-highest-match).
 -/
 namespace PV.Filter
